@@ -247,6 +247,48 @@ def run(ck, facts):
     ck.expect(i_ast is not None and i_ext is not None and i_ast < i_ext, "R5", "macro::gen_bridge/ast-before-strip", "from_syn at %s, first extract at %s" % (i_ast, i_ext),
               "gen_bridge strips attributes (statement %s) before building the AST (statement %s): module-level abi_rename/attrs are invisible to the macro while the tool still sees them" % (i_ext, i_ast), C.loc(gb))
 
+    # ---------------- R1 (cont.) the rename pattern keeps the text on BOTH sides of `{0}`
+    rp = next((f for f in core.fn_list if "RenamePattern" in f["path"] and f["path"].endswith("::from_str") and "hir" in f), None)
+    if rp is None:
+        ck.bad("R1", "RenamePattern::from_str/anchor", "function not found", None)
+    else:
+        body = C.fn_body(rp)
+        nodes = list(C.walk(body))
+        form = None
+        ok_rp = False
+        if any(x.get("k") == "mcall" and x.get("m") == "split_once" and "{0}" in C.str_lits(x) for x in nodes):
+            form = "split_once"
+            # the (before, after) tuple must bind both halves and both must reach `replacement`
+            tups = [x for n_, _ in C.with_conditions(body) for x in ([n_.get("pat")] if isinstance(n_, dict) and n_.get("k") in ("let", "letst") else []) if isinstance(x, dict)]
+            tups += [arm["pat"] for x in nodes if x.get("k") == "match" for arm in x["arms"]]
+            binds = []
+            for p_ in tups:
+                for y in C.walk({"k": "x", "e": p_}) if False else []:
+                    pass
+
+            def tuple_binds(p_):
+                if not isinstance(p_, dict):
+                    return None
+                if p_.get("k") == "tuple" and len(p_.get("sub") or []) == 2:
+                    return [q.get("n") if q.get("k") == "bind" else None for q in p_["sub"]]
+                for q in (p_.get("sub") or []) if isinstance(p_.get("sub"), list) else ([p_["sub"]] if isinstance(p_.get("sub"), dict) else []):
+                    r_ = tuple_binds(q.get("p") if isinstance(q, dict) and "p" in q and "k" not in q else q)
+                    if r_:
+                        return r_
+                return None
+            tb = next((tuple_binds(p_) for p_ in tups if tuple_binds(p_)), None)
+            used = {x.get("n") for x in nodes if x.get("k") == "local"}
+            ok_rp = bool(tb) and all(tb) and set(tb) <= used
+        elif any(x.get("k") == "mcall" and x.get("m") == "find" and "{0}" in C.str_lits(x) for x in nodes):
+            form = "find+slices"
+            rng = {x.get("v") for x in nodes if x.get("k") == "struct" and (x.get("adt") or "").startswith("core::ops::range::")}
+            ok_rp = {"RangeTo", "RangeFrom"} <= rng or "Range" in rng and "RangeFrom" in rng
+        elif any(x.get("k") == "mcall" and x.get("m") in ("replace", "replacen") and "{0}" in C.str_lits(x) for x in nodes):
+            form = "replace"
+            ok_rp = True
+        ck.expect(ok_rp, "R1", "RenamePattern::from_str/keeps-prefix-and-suffix", str(form),
+                  "the abi_rename pattern parser (%s form) does not keep the text on both sides of `{0}`: `lib_{0}_v2` renames `Foo_bar` to a name without the `_v2` suffix, so exported names differ from the documented scheme" % form, C.loc(rp))
+
     # ---------------- R6 clauses shared with C14 and C13
     # (a) the tool analyses exactly the modules the macro expands: a plain `mod` nested in a bridge is not a bridge (C14.R3);
     # (b) abi_rename on one impl block does not leak onto later impl blocks (ast::Attrs accumulators are per item, C13.R7).
@@ -254,5 +296,5 @@ def run(ck, facts):
     import c13
     sub = C.SubCheck(ck, "R6", "the tool lowers exactly the items the macro exports (nested plain modules are not analysed) and abi_rename is inherited per impl block, never carried to sibling items", ["R3"])
     c14.run(sub, facts)
-    sub2 = C.SubCheck(ck, "R6", "", ["R7"], key_re=r"ast::modules|add_attrs")
+    sub2 = C.SubCheck(ck, "R6", "", ["R7", "R6"], key_re=r"ast::modules|add_attrs|ast::Attrs::attrs_for_inheritance")
     c13.run(sub2, facts)
